@@ -157,6 +157,7 @@ class Style:
             else 0
         )
 
+        link = link or None  # an empty link is no link
         self._link = link
         self._link_id = f"{time()}-{randint(0, 999999)}" if link else ""
         self._hash = hash(
@@ -586,6 +587,7 @@ class Style:
         Returns:
             Style: A new Style instance.
         """
+        link = link or None  # an empty link is no link
         style = self.__new__(Style)
         style._ansi = self._ansi
         style._style_definition = None
